@@ -35,6 +35,9 @@ type Config struct {
 	Out           string            `json:"out"`
 	LibDir        string            `json:"lib_dir"`
 	SolverBin     string            `json:"solver"`
+	NoMerge       bool              `json:"no_merge"`
+	MakeLenSplit  int               `json:"make_len_split"`
+	SliceLenSplit int               `json:"slice_len_split"`
 	DumpSMT       string            `json:"dump_smt"`
 	PerHarness    map[string]*HarnessOpts `json:"per_harness"`
 
@@ -69,6 +72,8 @@ type HarnessResult struct {
 	Inconclusive []string      `json:"inconclusive"`
 	SamplePaths []string       `json:"sample_paths"`
 	Truncated   bool           `json:"truncated"`
+	Cuts        int            `json:"cuts"`
+	LongestTrace string        `json:"longest_trace_kinds"`
 }
 
 type workItem struct{ prefix []Dec }
@@ -115,6 +120,23 @@ func explore(prog *ssa.Program, pkg *ssa.Package, cfg *Config, hname string) *Ha
 		nw = 8
 	}
 	stop := false
+	progDone := make(chan struct{})
+	if os.Getenv("SYMGO_PROGRESS") != "" {
+		go func() {
+			tk := time.NewTicker(5 * time.Second)
+			defer tk.Stop()
+			for {
+				select {
+				case <-progDone:
+					return
+				case <-tk.C:
+					mu.Lock()
+					fmt.Fprintf(os.Stderr, "[symgo] %s progress: paths=%d queue=%d active=%d ends=%v maxtrace=%d\n", hname, res.Paths, len(queue), active, res.Ends, res.MaxTrace)
+					mu.Unlock()
+				}
+			}
+		}()
+	}
 	for w := 0; w < nw; w++ {
 		wg.Add(1)
 		go func(w int) {
@@ -162,8 +184,21 @@ func explore(prog *ssa.Program, pkg *ssa.Package, cfg *Config, hname string) *Ha
 				}
 				res.Steps += run.steps
 				res.Asserts += run.asserts
+				res.Cuts += run.cuts
 				if len(run.trace) > res.MaxTrace {
 					res.MaxTrace = len(run.trace)
+					var kb []byte
+					for _, d := range run.trace {
+						c := d.Kind
+						if c == 0 {
+							c = '?'
+						}
+						if d.Forced {
+							c = c - 'a' + 'A'
+						}
+						kb = append(kb, c)
+					}
+					res.LongestTrace = string(kb)
 				}
 				for k := range run.reached {
 					reached[k] = true
@@ -200,6 +235,7 @@ func explore(prog *ssa.Program, pkg *ssa.Package, cfg *Config, hname string) *Ha
 		}(w)
 	}
 	wg.Wait()
+	close(progDone)
 	// gather solver stats: done through global counters
 	res.Queries = int(statQueries.Swap(0))
 	res.SolverMS = statSolverNS.Swap(0) / 1e6
@@ -244,6 +280,7 @@ func runPath(prog *ssa.Program, pkg *ssa.Package, cfg *Config, fn *ssa.Function,
 		intMode:   cfg.IntMode,
 		harness:   fn.Name(),
 		replaceFn: replaceTable(prog, cfg),
+		stats:     &Stats{},
 	}
 	in.emptyStr = &StrV{}
 	in.errType = errorType()
